@@ -59,7 +59,7 @@ theorem C15_source_update (p : PropSt) (acc : Bool) (ar : AR) (pos : List Val) :
       = (p.callJump, ((p.update acc ar pos).raw : Int)) := by
   unfold Gen.update PropSt.update
   rw [C15_source_call_jump]
-  cases p.callJump <;> simp
+  first | done | (cases p.callJump <;> simp)
 
 /-- An adaptive event is absorbed only when the translated `update` called `_update`. -/
 theorem C15_source_update_event (p : PropSt) (acc : Bool) (ar : AR) (pos : List Val)
@@ -76,7 +76,7 @@ theorem C15_source_jump {α : Type} (p : PropSt) (fromx jumped : α) :
       = if p.callJump then jumped else fromx := by
   unfold Gen.jump
   rw [C15_source_call_jump]
-  cases p.callJump <;> simp
+  first | done | (cases p.callJump <;> simp)
 
 /-- `BaseProposal.logpdf` as translated: a proposal that is not due reports log-density 0, so a
     non-symmetric constituent contributes its reported value iff `Chain.contributes`. -/
@@ -85,7 +85,7 @@ theorem C15_source_logpdf (p : PropSt) (lp : Rat) :
       = if p.callJump then lp else 0 := by
   unfold Gen.logpdf
   rw [C15_source_call_jump]
-  cases p.callJump <;> simp
+  first | done | (cases p.callJump <;> simp)
 
 theorem C15_source_contribution (p : PropSt) (lp : Rat) (hns : p.cfg.symmetric = false) :
     Gen.logpdf (p.raw : Int) (p.cfg.k : Int) (p.cfg.dur : Int) (startOf p) lp
